@@ -548,7 +548,7 @@ class NVSubroutineTranspiler(SubroutineTranspiler):
                 nv.RotYInstruction(
                     lineno=instr.lineno,
                     reg=instr.reg,
-                    imm0=Immediate(24),
+                    imm0=Immediate(8),
                     imm1=Immediate(4),
                 ),
                 nv.RotXInstruction(
@@ -569,7 +569,7 @@ class NVSubroutineTranspiler(SubroutineTranspiler):
                 nv.RotYInstruction(
                     lineno=instr.lineno,
                     reg=instr.reg,
-                    imm0=Immediate(28),
+                    imm0=Immediate(4),
                     imm1=Immediate(4),
                 ),
                 nv.RotXInstruction(
